@@ -1,6 +1,6 @@
 (* C18 (partial: algebraic identities over the reals; numeric accuracy is tested per instance). *)
 From Coq Require Import Reals.
-From TT Require Import Proofs.Geo_proofs.
+From TT Require Import Proofs.Geo_proofs Proofs.Hav.
 Local Open Scope R_scope.
 
 Theorem C18_symmetric : forall la1 lo1 la2 lo2 r, distance_haversin la1 lo1 la2 lo2 r = distance_haversin la2 lo2 la1 lo1 r.
@@ -24,3 +24,19 @@ Theorem C18_fast_linear_in_radius : forall la1 lo1 la2 lo2 r k,
   distance_equirect la1 lo1 la2 lo2 (k * r) = k * distance_equirect la1 lo1 la2 lo2 r.
 Proof. exact equirect_linear_in_radius. Qed.
 Print Assumptions C18_fast_linear_in_radius.
+
+(* The default method returns radius times the central angle between the two positions - the
+   great-circle distance on the sphere of the configured radius: theta is the angle in [0, pi]
+   whose cosine is the dot product of the positions' unit vectors. *)
+Theorem C18_default_is_great_circle :
+  forall la1 lo1 la2 lo2 r theta, 0 <= theta <= PI -> cos theta = dot la1 lo1 la2 lo2 ->
+    distance_haversin la1 lo1 la2 lo2 r = theta * r.
+Proof. exact haversine_is_great_circle. Qed.
+Print Assumptions C18_default_is_great_circle.
+
+(* ... hence zero only when the two unit vectors coincide *)
+Theorem C18_zero_only_for_identical :
+  forall la1 lo1 la2 lo2 r theta, 0 <= theta <= PI -> cos theta = dot la1 lo1 la2 lo2 -> r <> 0 ->
+    distance_haversin la1 lo1 la2 lo2 r = 0 -> dot la1 lo1 la2 lo2 = 1.
+Proof. exact haversine_zero_only_same. Qed.
+Print Assumptions C18_zero_only_for_identical.
